@@ -138,6 +138,24 @@ func runC04(rc *RunCtx, i int) {
 			rc.Violate(i, "widened-range-lost-value", "", fmt.Sprintf("after UpdateMinMaxIndex the range [%d, %d] no longer covers %v", idx.Min, idx.Max, v), wit(nil))
 			continue
 		}
+		// merge unions whole block ranges through the same helper: the union must cover both
+		if fr.Chance(0.5) {
+			a, b := operandsNear(fr, n), operandsNear(fr, n)
+			if a > b {
+				a, b = b, a
+			}
+			other := bs.MinMaxIndex{Min: a, Max: b}
+			u := bs.UpdateMinMaxIndex(idx, other.Min, other.Max)
+			u2 := bs.UpdateMinMaxIndex(other, idx.Min, idx.Max)
+			for _, un := range []bs.MinMaxIndex{u, u2} {
+				if un.Min > idx.Min || un.Min > other.Min || un.Max < idx.Max || un.Max < other.Max {
+					rc.Violate(i, "range-union-not-covering", "", fmt.Sprintf("UpdateMinMaxIndex as a union of [%d,%d] and [%d,%d] gave [%d,%d]", idx.Min, idx.Max, other.Min, other.Max, un.Min, un.Max), wit(nil))
+					break
+				}
+			}
+			idx = u
+			rc.Res.Count("range_unions", 1)
+		}
 		if !n.Satisfies(c) {
 			continue
 		}
@@ -186,6 +204,40 @@ func runC04(rc *RunCtx, i int) {
 	tries := 12
 	if rc.Tier == "thorough" {
 		tries = 30
+	}
+	// every (row, indexed key): a tight condition that only a range covering the row's own value passes
+	for _, rec := range recs {
+		for _, key := range rec.Keys {
+			n := rec.Indexed[key]
+			fl, ok := ratFloor(n)
+			if !ok {
+				continue
+			}
+			hi := fl
+			if n.Cmp(fl) != 0 && fl < math.MaxInt64 {
+				hi = fl + 1
+			}
+			c := bs.NumericBetween(fl, hi)
+			if !n.Satisfies(c) {
+				continue
+			}
+			q := bs.NewQuery().MatchPrefilter(bs.MinMax(key, c)).Build()
+			e := w.Eng[er.Intn(len(w.Eng))]
+			ctx, cancel := context.WithTimeout(context.Background(), 60*time.Second)
+			res := world.RunQuery(ctx, e, q)
+			cancel()
+			rc.Res.Eval(1)
+			rc.Res.Count("engine_rows_required", 1)
+			if res.QErr != nil || res.Err != nil {
+				rc.Violate(i, "query-error-on-healthy-stores", "", fmt.Sprintf("%v %v", res.QErr, res.Err), map[string]any{"query": queryJSON(q), "scenario": d})
+				return
+			}
+			if res.VIDs[rec.VID] < rec.Count {
+				rc.Violate(i, "satisfying-row-pruned", "", fmt.Sprintf("row %s has %s = %T(%v), which satisfies %+v, but the prefiltered query did not return it", rec.VID, key, rec.Row[key], rec.Row[key], c),
+					map[string]any{"query": queryJSON(q), "row": string(rec.JSON), "scenario": d})
+				return
+			}
+		}
 	}
 	for t := 0; t < tries && len(recs) > 0; t++ {
 		rec := core.Pick(er, recs)
